@@ -7,6 +7,8 @@
  */
 
 #include <algorithm>
+#include <utility>
+#include <vector>
 
 #include "cdns_decoder.h"
 
@@ -189,72 +191,87 @@ void CDNS::CdnsDecoder::read_break()
 
 void CDNS::CdnsDecoder::skip_item()
 {
-    CborType cbor_type;
-    uint8_t item_length;
-    read_cbor_type(cbor_type, item_length);
+    // Nested items are skipped iteratively with an explicit stack of (items left, indefinite length)
+    // entries, so that the nesting depth of the input can't exhaust the call stack
+    std::vector<std::pair<uint64_t, bool>> pending;
+    pending.emplace_back(1, false);
 
-    switch (cbor_type) {
-        case CborType::UNSIGNED:
-        case CborType::NEGATIVE:
-        case CborType::TAG:
-            if (item_length >= 28) {
-                throw CdnsDecoderException(("Unsupported CBOR additional information value: " +
-                                            std::to_string(item_length)).c_str());
+    while (!pending.empty()) {
+        if (pending.back().second) {
+            if (peek_type() == CborType::BREAK) {
+                m_p++;
+                pending.pop_back();
+                continue;
             }
-            read_int(item_length);
-            // A tag is followed by the data item it applies to
-            if (cbor_type == CborType::TAG)
-                skip_item();
-            break;
+        }
+        else if (pending.back().first == 0) {
+            pending.pop_back();
+            continue;
+        }
+        else {
+            pending.back().first--;
+        }
 
-        case CborType::SIMPLE:
-            if (item_length >= 28 && item_length <= 30) {
-                throw CdnsDecoderException(("Unsupported CBOR additional information value: " +
-                                            std::to_string(item_length)).c_str());
-            }
-            read_int(item_length);
-            break;
+        CborType cbor_type;
+        uint8_t item_length;
+        read_cbor_type(cbor_type, item_length);
 
-        case CborType::BYTE_STRING:
-        case CborType::TEXT_STRING:
-            if (item_length >= 28 && item_length <= 30) {
-                throw CdnsDecoderException(("Unsupported CBOR additional information value: " +
-                                            std::to_string(item_length)).c_str());
-            }
-            read_string(cbor_type, read_int(item_length), item_length == 31 ? true : false);
-            break;
+        switch (cbor_type) {
+            case CborType::UNSIGNED:
+            case CborType::NEGATIVE:
+            case CborType::TAG:
+                if (item_length >= 28) {
+                    throw CdnsDecoderException(("Unsupported CBOR additional information value: " +
+                                                std::to_string(item_length)).c_str());
+                }
+                read_int(item_length);
+                // A tag is followed by the data item it applies to
+                if (cbor_type == CborType::TAG)
+                    pending.emplace_back(1, false);
+                break;
 
-        case CborType::ARRAY:
-        case CborType::MAP:
-            if (item_length >= 28 && item_length <= 30) {
-                throw CdnsDecoderException(("Unsupported CBOR additional information value: " +
-                                            std::to_string(item_length)).c_str());
-            }
-            if (item_length == 31) {
-                while(true) {
-                    if (peek_type() == CborType::BREAK) {
-                        m_p++;
-                        break;
+            case CborType::SIMPLE:
+                if (item_length >= 28 && item_length <= 30) {
+                    throw CdnsDecoderException(("Unsupported CBOR additional information value: " +
+                                                std::to_string(item_length)).c_str());
+                }
+                read_int(item_length);
+                break;
+
+            case CborType::BYTE_STRING:
+            case CborType::TEXT_STRING:
+                if (item_length >= 28 && item_length <= 30) {
+                    throw CdnsDecoderException(("Unsupported CBOR additional information value: " +
+                                                std::to_string(item_length)).c_str());
+                }
+                read_string(cbor_type, read_int(item_length), item_length == 31 ? true : false);
+                break;
+
+            case CborType::ARRAY:
+            case CborType::MAP:
+                if (item_length >= 28 && item_length <= 30) {
+                    throw CdnsDecoderException(("Unsupported CBOR additional information value: " +
+                                                std::to_string(item_length)).c_str());
+                }
+                if (item_length == 31) {
+                    pending.emplace_back(0, true);
+                }
+                else {
+                    uint64_t item_count = read_int(item_length);
+                    if (cbor_type == CborType::MAP) {
+                        if (item_count > UINT64_MAX / 2)
+                            throw CdnsDecoderException("Too many items in CBOR map");
+                        item_count *= 2;
                     }
-                    skip_item();
-                    if (cbor_type == CborType::MAP)
-                        skip_item();
+                    pending.emplace_back(item_count, false);
                 }
-            }
-            else {
-                uint64_t item_count = read_int(item_length);
-                for (unsigned i = 0; i < item_count; i++) {
-                    skip_item();
-                    if (cbor_type == CborType::MAP)
-                        skip_item();
-                }
-            }
-            break;
+                break;
 
-        default:
-            throw CdnsDecoderException(("Unknown CBOR major type " +
-                                        std::to_string(static_cast<uint8_t>(cbor_type) >> 5)).c_str());
-            break;
+            default:
+                throw CdnsDecoderException(("Unknown CBOR major type " +
+                                            std::to_string(static_cast<uint8_t>(cbor_type) >> 5)).c_str());
+                break;
+        }
     }
 }
 
